@@ -231,6 +231,22 @@ pub fn run(tier: Tier) -> Report {
             }
         }
     }
+    // low chroma with a near-tie of the two largest channels (the sextant decision is most
+    // sensitive there: a hue error of 60*d/c degrees if the wrong channel is taken as the maximum)
+    for lo in [0.0f32, 0.25, 0.5, 0.9] {
+        for c in [0.01f32, 0.0101, 0.012, 0.02, 0.05] {
+            let hi = lo + c;
+            for d in [1.2e-7f32, 1e-6, 2e-6, 5e-6, 9e-6, 2e-5, 1e-4, 1e-3] {
+                let hi2 = hi - d;
+                if hi2 <= lo {
+                    continue;
+                }
+                for perm in [[hi, hi2, lo], [hi2, hi, lo], [lo, hi, hi2], [lo, hi2, hi], [hi, lo, hi2], [hi2, lo, hi]] {
+                    shell.push(perm);
+                }
+            }
+        }
+    }
     let mut acc = Acc::default();
     check_rgb(&mut acc, total, &shell);
     rep.acc.merge(acc);
